@@ -154,6 +154,9 @@ func init() {
 		"time.now": func(e *Exec, _ *frame, _ token.Pos, _ *ssa.Function, a []Value) Value {
 			return TupleV{e.ts.Const(64, 1700000000), e.ts.Const(32, 0), e.ts.Const(64, 2000)}
 		},
+		"(*github.com/jf-tech/omniparser/idr.XMLStreamReader).AtLine": func(e *Exec, _ *frame, _ token.Pos, _ *ssa.Function, a []Value) Value {
+			return e.ts.Const(64, 1) // reflection on xml.Decoder's line counter; only used in messages
+		},
 		"runtime.KeepAlive": extNop,
 		"runtime.GC":        extNop,
 		"os.Getenv":         func(e *Exec, _ *frame, _ token.Pos, _ *ssa.Function, _ []Value) Value { return StrV{} },
